@@ -265,7 +265,14 @@ def check_C05(ex, sub=None):
     um = ex.problem.um
     seen = set()
     plumbing = ("SimpleEvaluator", "ValidatingEvaluator", "Evaluator", "Iterate", "ScaledProblem", "ConstrainedProblem", "ImplicitFunc", "ScaledImplicitFunc", "StepFunc", "StateData")
-    for (comp, k, site, arg) in ex.problem.oob:
+    deriv_on = ex.params is not None and ex.params.deriv_check.name != "NoCheck"
+    for (comp, k, site, arg, phase) in ex.problem.oob:
+        # the two stated exemptions, recognised by *when* the call happens (robust against renaming)
+        # and, as a fall-back, by the issuing function's name:
+        #   evaluation at the user-supplied scaling point = any call before solve() begins;
+        #   opt-in derivative check = calls inside solve() before the first trial step while it is on
+        if phase == "construct" or (phase == "presolve" and deriv_on):
+            continue
         if any(site_has(site, s) for s in EXEMPT_SITES):
             continue
         # attribute to the innermost algorithmic function below the evaluator / iterate plumbing
